@@ -837,21 +837,36 @@ def index_insert_retried(ctx, p):
                                 res.add(st['p'][0])
                     inspected = any(st['k'] == 'assign' and st['r']['k'] == 'discr' and st['r']['p'][0] in res and 'PlanOutcome' in str(b.locals[st['r']['p'][0]])
                                     for bi in b.normal_blocks() for st in b.blocks[bi]['s'])
-                    # ... and every caller grows the index after the call and inserts again
-                    callers = [F.body(c) for c in F.callers(b.path) if F.body(c) is not None]
-                    ok_callers = bool(callers)
-                    for cb in callers:
-                        for cs in cb.call_sites(b.path):
-                            g2 = [g for g in cb.call_sites(grow) if g in cb.reaches(cs)]
-                            again = [x for x in cb.call_sites(callee) if any(x in cb.reaches(g) for g in g2)]
-                            # or the grow-and-insert-again loop was extracted into a helper that is called after this call
-                            lg, lc = set(lib.sites_reaching(cb, [grow])), set(lib.sites_reaching(cb, [callee]))
-                            helper = [x for x in lg & lc if x in cb.reaches(cs) and x != cs and x not in cb.call_sites(callee)]
-                            if helper:
-                                continue
-                            if not (g2 and again):
-                                ok_callers = False
-                                why = 'caller %s does not grow the index and insert again after the call' % cb.path
+                    # ... and every caller grows the index after the call and inserts again - or hands the outcome on to its own
+                    # caller, which does (`write_plan_existing` -> `write_plan_moved`: the arm of a match extracted into a helper)
+                    def retried_by_callers(hp, depth=3):
+                        callers = [F.body(c) for c in sorted(set(F.callers(hp))) if F.body(c) is not None and c != hp]
+                        if not callers:
+                            return False, 'no caller of %s' % hp
+                        for cb in callers:
+                            for cs in cb.call_sites(hp):
+                                if cs not in cb.normal_blocks():
+                                    continue
+                                g2 = [g for g in cb.call_sites(grow) if g in cb.reaches(cs)]
+                                again = [x for x in cb.call_sites(callee) if any(x in cb.reaches(g) for g in g2)]
+                                # or the grow-and-insert-again loop was extracted into a helper that is called after this call
+                                lg, lc = set(lib.sites_reaching(cb, [grow])), set(lib.sites_reaching(cb, [callee]))
+                                helper = [x for x in lg & lc if x in cb.reaches(cs) and x != cs and x not in cb.call_sites(callee)]
+                                if helper or (g2 and again):
+                                    continue
+                                # handed on: the call's result is what the caller returns on that path
+                                d_ = cb.term(cs)['d']
+                                hands_on = d_ == [0] or (len(d_) == 1 and d_[0] in backward_slice(cb, [[0]]).locals)
+                                if hands_on and depth > 0 and '{closure' not in cb.path:
+                                    r_ = retried_by_callers(cb.path, depth - 1)
+                                    if r_[0]:
+                                        continue
+                                    return r_
+                                return False, 'caller %s does not grow the index and insert again after the call' % cb.path
+                        return True, ''
+                    ok_callers, why2 = retried_by_callers(b.path)
+                    if not ok_callers:
+                        why = why2
                     if not inspected:
                         why = 'the outcome of the insert is passed on without being looked at'
                     lifted = inspected and ok_callers
@@ -1576,7 +1591,18 @@ def recursion_audit(ctx, p, prefixes):
             continue
         n += 1
         key = ','.join(comp)
-        # renamed members: match through the alias registry by falling back to the set of last path segments
+        # the identity of a recorded recursion is its set of functions: the same cycle with a helper extracted into it (a superset
+        # of a recorded group) is the recorded finding, any other group is a new one
+        try:
+            import engine as _engine
+            pre_ = '%s %sr recursion-depth-bounded ' % (getattr(ctx, 'prop', ''), p)
+            for k_ in _engine.load_known_findings():
+                if k_.startswith(pre_):
+                    old_ = set(k_[len(pre_):].split(','))
+                    if old_ and old_ <= set(comp):
+                        key = ','.join(sorted(old_))
+        except Exception:
+            pass
         why = next((w for rx, w in RECURSION_REVIEWED if all(re.match(rx, m) for m in comp)), None)
         ctx.ob(p + 'r recursion-depth-bounded %s' % key, 'K7-recursion-audit', comp[0],
                'a recursive group of functions has a depth bound that does not depend on stored, client-grown structure' + (' [reviewed: %s]' % why if why else ''),
